@@ -450,6 +450,48 @@ Qed.
 Lemma run_app l t1 t2 : L.run (L.run l t1) t2 = L.run l (t1 ++ t2).
 Proof. unfold L.run. rewrite fold_left_app. reflexivity. Qed.
 
+(* every reachable state, every endpoint key: an entry of endpointQueues exists only for calls that
+   have NOT returned -- its counter is the number of arrived requests that own a slot of the key
+   (at least one, none of them returned), its queue lists exactly the requests still inside
+   acquireEndpoint without a slot.  In particular a slot handed to a waiter that has already taken
+   <-ctx.Done() (status CancelG) is still counted for that waiter, i.e. it is not lost. *)
+Theorem limiter_entries_owned : forall limit epl tr k cnt q,
+  let l := L.run (L.new_lim limit epl) tr in
+  L.tab l k = Some (cnt, q) ->
+  cnt = Z.of_nat (length (LP.selK LP.holds_ep (L.keyof l) (L.st l) (L.arr l) k)) /\ 1 <= cnt /\
+  q = LP.selK LP.waits_ep (L.keyof l) (L.st l) (L.arr l) k /\
+  (exists r, In r (L.arr l) /\ L.keyof l r = k /\ LP.holds_ep (L.st l r) = true /\ forall e, L.st l r <> L.Done e).
+Proof.
+  intros limit epl tr k cnt q l Htb.
+  pose proof (LP.reach_inv limit epl tr) as HI. fold l in HI. destruct HI as (_ & HE & _).
+  destruct (LP.E_entry_queue _ _ _ _ _ _ _ _ HE Htb) as (Hq & Hc & Hc1 & _).
+  split; [exact Hc|]. split; [exact Hc1|]. split; [exact Hq|].
+  destruct (LP.selK LP.holds_ep (L.keyof l) (L.st l) (L.arr l) k) as [|r rs] eqn:E; [cbn in Hc; lia|].
+  assert (Hr : In r (LP.selK LP.holds_ep (L.keyof l) (L.st l) (L.arr l) k)) by (rewrite E; left; reflexivity).
+  apply LP.selK_in in Hr. destruct Hr as (Ha & Hk & Hh). exists r. repeat split; try assumption.
+  intros e He. rewrite He in Hh. discriminate.
+Qed.
+
+(* the cancelled waiter that was handed a slot while it was delayed between the select of
+   acquireEndpoint and cancelEndpoint: its two remaining sections return the slot -- to the head of
+   the queue if somebody waits, else the counter drops (entry deleted at 0) -- and the call returns *)
+Theorem limiter_handover_returned : forall limit epl tr r,
+  let l := L.run (L.new_lim limit epl) tr in
+  L.st l r = L.CancelG ->
+  let l2 := L.step (L.step l (L.CancelSec r)) (L.ReleaseEp r) in
+  L.st l2 r = L.Done L.ErrEp /\
+  exists cnt q, L.tab l (L.keyof l r) = Some (cnt, q) /\ 1 <= cnt /\ ~ In r q /\
+    match q with
+    | w :: rest => L.tab l2 (L.keyof l r) = Some (cnt, rest) /\ L.st l2 w = L.grant_ep (L.st l w)
+    | [] => L.tab l2 (L.keyof l r) = (if cnt - 1 =? 0 then None else Some (cnt - 1, []))
+    end.
+Proof.
+  intros limit epl tr r l Hs l2.
+  destruct (LP.cancel_granted_passes_own_slot limit epl tr r Hs) as (_ & _ & _ & _ & _ & Hd & _ & _ & _ & (cnt & q & Htb & Hc & Hn & Hm) & _).
+  split; [exact Hd|]. exists cnt, q. split; [exact Htb|]. split; [exact Hc|]. split; [exact Hn|].
+  destruct q as [|w rest]; [exact (proj1 Hm)|]. destruct Hm as (H1 & H2 & _). split; assumption.
+Qed.
+
 (* ================================================================== *)
 (* 6. per-ID lock map inside the composite: one handler thread, Lock ... Unlock per datagram *)
 
@@ -799,6 +841,36 @@ Proof.
     apply in_map_iff. exists (k, o). split; auto.
 Qed.
 
+Lemma otget_otdel_same k : forall t, O.tget k (O.tdel k t) = None.
+Proof.
+  induction t as [|[k' o] r IH]; cbn [O.tdel O.tget]; [reflexivity|].
+  destruct (k' =? k) eqn:E; [exact IH|]. cbn [O.tget]. rewrite E. exact IH.
+Qed.
+
+(* Observation.Cancel whose deregistration exchange FAILS (the peer stays silent until the context
+   ends, the write is refused, the limiter rejects the request): from every state satisfying the
+   invariant, the table and the live set are those of a Cancel that was answered (with any code);
+   nothing is kept under the token of the cancelled registration; table = live observations goes on *)
+Theorem cancel_outcome_irrelevant : forall s lv id, OInv s lv ->
+  let s' := fst (O.step O.observe_wire s (O.ECancelErr id)) in
+  let lv' := live_after s lv (O.ECancelErr id) in
+  (forall code, O.tbl s' = O.tbl (fst (O.step O.observe_wire s (O.ECancel id code))) /\
+                lv' = live_after s lv (O.ECancel id code)) /\
+  (forall tok, nth_error (O.regs s) id = Some tok -> O.tget (O.crc64 tok) (O.tbl s') = None) /\
+  OInv s' lv' /\ (no_waiting s' -> length (O.tbl s') = length lv').
+Proof.
+  intros s lv id I s' lv'.
+  split.
+  { intros code. unfold s', lv'. cbn [O.step live_after]. unfold O.cancel_err, O.cancel_with, O.cancel.
+    destruct (nth_error (O.regs s) id) as [tok|]; [|split; reflexivity].
+    destruct (O.tget (O.crc64 tok) (O.tbl s)); split; reflexivity. }
+  split.
+  { intros tok Hn. unfold s'. cbn [O.step]. unfold O.cancel_err, O.cancel_with. rewrite Hn.
+    destruct (O.tget (O.crc64 tok) (O.tbl s)) eqn:Eg; cbn [fst O.tbl]; [apply otget_otdel_same|exact Eg]. }
+  assert (I' : OInv s' lv') by (apply oinv_step; exact I).
+  split; [exact I'|apply oinv_sizes; exact I'].
+Qed.
+
 (* for every history of registrations, messages and cancellations: the ids of the table entries
    that are past their first response are exactly the live registrations (added by a successful
    registration, removed by cancel / failed registration / eviction); with no registration in
@@ -913,6 +985,13 @@ Proof.
       destruct (RP.tick_entry_keep c p p' b Hte) as [_ Hc].
       unfold R.tick_entry in Hte. destruct ((match R.p_dl p with Some d => d <? 0 | None => false end) || (R.p_count p >=? R.max_rt c)); [discriminate|].
       destruct (R.ack_ms c * (R.p_count p + 1) <? R.p_elapsed p); inversion Hte; subst; cbn; lia.
+  - (* ObCancelErr *)
+    constructor; simp; try apply I. apply oinv_step. apply I.
+  - (* LmAct *)
+    constructor; simp; try apply I. apply lm_step_reach. apply I.
+  - (* LmSettleHold *)
+    constructor; simp; try apply I. destruct (ci_lm s I) as [tr Htr]. destruct (LP.settle_hold_is_run SETTLE_FUEL hold (lm s)) as [tr2 H2].
+    exists (tr ++ tr2). rewrite H2, Htr. apply run_app.
 Qed.
 
 Lemma cinv_run evs : forall s, CInv s -> Forall ev_ok evs -> CInv (Model.run c s evs).
